@@ -19,10 +19,17 @@ import (
 	"github.com/indexsupply/shovel/wpg"
 )
 
+// declared: the operator already lists the index on the referenced column
+var declaredIndex bool
+
 func refIG(name string) config.Integration {
-	return config.Integration{Name: name, Enabled: true,
+	ig := config.Integration{Name: name, Enabled: true,
 		Table: wpg.Table{Name: "t_" + name, Columns: []wpg.Column{{Name: "addr", Type: "bytea"}}},
 		Block: []dig.BlockData{{Name: "tx_signer", Column: "addr"}}}
+	if declaredIndex {
+		ig.Table.Index = [][]string{{"addr"}}
+	}
+	return ig
 }
 
 func TestVerifDepsBounded(t *testing.T) {
@@ -34,85 +41,113 @@ func TestVerifDepsBounded(t *testing.T) {
 			fmt.Printf("BOUNDED-FAIL "+format+"\n", a...)
 		}
 	}
-	for code := 0; code < 4*4*4*4*4; code++ {
-		pick := func(k int) string {
-			c := code
-			for i := 0; i < k; i++ {
-				c /= 4
-			}
-			return targets[c%4]
-		}
-		for _, mainFirst := range []bool{false, true} {
-			ref := func(tgt string) dig.Filter {
-				if tgt == "" {
-					return dig.Filter{}
+	for _, declaredIndex = range []bool{false, true} {
+		for code := 0; code < 4*4*4*4*4; code++ {
+			pick := func(k int) string {
+				c := code
+				for i := 0; i < k; i++ {
+					c /= 4
 				}
-				return dig.Filter{Op: "contains", Ref: dig.Ref{Integration: tgt, Column: "addr"}}
+				return targets[c%4]
 			}
-			main := config.Integration{Name: "main", Enabled: true,
-				Table: wpg.Table{Name: "t_main", Columns: []wpg.Column{
-					{Name: "f", Type: "bytea"}, {Name: "t", Type: "bytea"}, {Name: "w", Type: "bytea"}, {Name: "txto", Type: "bytea"}, {Name: "la", Type: "bytea"}}},
-				Event: dig.Event{Name: "E", Type: "event", Inputs: []dig.Input{
-					{Indexed: true, Name: "from", Type: "address", Column: "f", Filter: ref(pick(0))},
-					{Indexed: true, Name: "to", Type: "address", Column: "t", Filter: ref(pick(1))},
-					{Name: "who", Type: "address", Column: "w", Filter: ref(pick(2))}}},
-				Block: []dig.BlockData{
-					{Name: "tx_to", Column: "txto", Filter: ref(pick(3))},
-					{Name: "log_addr", Column: "la", Filter: ref(pick(4))}},
-			}
-			igs := []config.Integration{refIG("A"), refIG("B"), refIG("C")}
-			mi := 3
-			if mainFirst {
-				igs = append([]config.Integration{main}, igs...)
-				mi = 0
-			} else {
-				igs = append(igs, main)
-			}
-			conf := config.Root{Integrations: igs}
-			cases++
-			if err := config.ValidateFix(&conf); err != nil {
-				fail("code=%d mainFirst=%v: rejected: %v", code, mainFirst, err)
-				continue
-			}
-			want := map[string]bool{}
-			for k := 0; k < 5; k++ {
-				if p := pick(k); p != "" {
-					want[p] = true
+			for _, mainFirst := range []bool{false, true} {
+				ref := func(tgt string) dig.Filter {
+					if tgt == "" {
+						return dig.Filter{}
+					}
+					return dig.Filter{Op: "contains", Ref: dig.Ref{Integration: tgt, Column: "addr"}}
 				}
-			}
-			got := map[string]bool{}
-			for _, d := range conf.Integrations[mi].Dependencies {
-				got[d] = true
-			}
-			var w, g []string
-			for k := range want {
-				w = append(w, k)
-			}
-			for k := range got {
-				g = append(g, k)
-			}
-			sort.Strings(w)
-			sort.Strings(g)
-			if strings.Join(w, ",") != strings.Join(g, ",") {
-				fail("references %v (inputs %q %q %q, block %q %q, main first=%v): Dependencies = %v", w, pick(0), pick(1), pick(2), pick(3), pick(4), mainFirst, conf.Integrations[mi].Dependencies)
-				continue
-			}
-			for _, ig := range conf.Integrations {
-				if !want[ig.Name] {
+				main := config.Integration{Name: "main", Enabled: true,
+					Table: wpg.Table{Name: "t_main", Columns: []wpg.Column{
+						{Name: "f", Type: "bytea"}, {Name: "t", Type: "bytea"}, {Name: "w", Type: "bytea"}, {Name: "txto", Type: "bytea"}, {Name: "la", Type: "bytea"}}},
+					Event: dig.Event{Name: "E", Type: "event", Inputs: []dig.Input{
+						{Indexed: true, Name: "from", Type: "address", Column: "f", Filter: ref(pick(0))},
+						{Indexed: true, Name: "to", Type: "address", Column: "t", Filter: ref(pick(1))},
+						{Name: "who", Type: "address", Column: "w", Filter: ref(pick(2))}}},
+					Block: []dig.BlockData{
+						{Name: "tx_to", Column: "txto", Filter: ref(pick(3))},
+						{Name: "log_addr", Column: "la", Filter: ref(pick(4))}},
+				}
+				igs := []config.Integration{refIG("A"), refIG("B"), refIG("C")}
+				mi := 3
+				if mainFirst {
+					igs = append([]config.Integration{main}, igs...)
+					mi = 0
+				} else {
+					igs = append(igs, main)
+				}
+				conf := config.Root{Integrations: igs}
+				cases++
+				if err := config.ValidateFix(&conf); err != nil {
+					fail("code=%d mainFirst=%v: rejected: %v", code, mainFirst, err)
 					continue
 				}
-				idx := false
-				for _, ix := range ig.Table.Index {
-					idx = idx || (len(ix) == 1 && ix[0] == "addr")
+				want := map[string]bool{}
+				for k := 0; k < 5; k++ {
+					if p := pick(k); p != "" {
+						want[p] = true
+					}
 				}
-				if !idx {
-					fail("referenced integration %s has no index on the referenced column", ig.Name)
+				got := map[string]bool{}
+				for _, d := range conf.Integrations[mi].Dependencies {
+					got[d] = true
+				}
+				var w, g []string
+				for k := range want {
+					w = append(w, k)
+				}
+				for k := range got {
+					g = append(g, k)
+				}
+				sort.Strings(w)
+				sort.Strings(g)
+				if strings.Join(w, ",") != strings.Join(g, ",") {
+					fail("references %v (inputs %q %q %q, block %q %q, main first=%v): Dependencies = %v", w, pick(0), pick(1), pick(2), pick(3), pick(4), mainFirst, conf.Integrations[mi].Dependencies)
+					continue
+				}
+				for _, ig := range conf.Integrations {
+					if !want[ig.Name] {
+						continue
+					}
+					idx := false
+					for _, ix := range ig.Table.Index {
+						idx = idx || (len(ix) == 1 && ix[0] == "addr")
+					}
+					if !idx {
+						fail("referenced integration %s has no index on the referenced column", ig.Name)
+					}
+				}
+				for k, inp := range conf.Integrations[mi].Event.Inputs {
+					if p := pick(k); p != "" && inp.Filter.Ref.Table != "t_"+p {
+						fail("input %d references %s but its table is %q", k, p, inp.Filter.Ref.Table)
+					}
 				}
 			}
-			for k, inp := range conf.Integrations[mi].Event.Inputs {
-				if p := pick(k); p != "" && inp.Filter.Ref.Table != "t_"+p {
-					fail("input %d references %s but its table is %q", k, p, inp.Filter.Ref.Table)
-				}
+		}
+	}
+	declaredIndex = false
+	// two dependents referencing the same column of the same integration: both keep the dependency
+	for _, order := range [][]string{{"A", "d1", "d2"}, {"d1", "A", "d2"}, {"d1", "d2", "A"}} {
+		var igs []config.Integration
+		for _, n := range order {
+			if n == "A" {
+				igs = append(igs, refIG("A"))
+				continue
+			}
+			igs = append(igs, config.Integration{Name: n, Enabled: true,
+				Table: wpg.Table{Name: "t_" + n, Columns: []wpg.Column{{Name: "txto", Type: "bytea"}}},
+				Block: []dig.BlockData{{Name: "tx_to", Column: "txto",
+					Filter: dig.Filter{Op: "contains", Ref: dig.Ref{Integration: "A", Column: "addr"}}}}})
+		}
+		conf := config.Root{Integrations: igs}
+		cases++
+		if err := config.ValidateFix(&conf); err != nil {
+			fail("two dependents %v: rejected: %v", order, err)
+			continue
+		}
+		for _, ig := range conf.Integrations {
+			if ig.Name != "A" && (len(ig.Dependencies) != 1 || ig.Dependencies[0] != "A") {
+				fail("two dependents %v: %s has Dependencies %v", order, ig.Name, ig.Dependencies)
 			}
 		}
 	}
